@@ -722,7 +722,8 @@ impl Culture for SixtyCycleDay {
 impl SixtyCycleDay {
   pub fn from_solar_day(solar_day: SolarDay) -> Self {
     let solar_year: isize = solar_day.get_year();
-    let spring_solar_day: SolarDay = SolarTerm::from_index(solar_year, 3).get_julian_day().get_solar_day();
+    let spring: SolarTerm = SolarTerm::from_index(solar_year, 3);
+    let spring_solar_day: SolarDay = spring.get_julian_day().get_solar_day();
     let lunar_day: LunarDay = solar_day.get_lunar_day();
     let mut lunar_year: LunarYear = lunar_day.get_lunar_month().get_lunar_year();
     if lunar_year.get_year() == solar_year {
@@ -736,7 +737,7 @@ impl SixtyCycleDay {
     }
     let term: SolarTerm = solar_day.get_term();
     let mut index: isize = term.get_index() as isize - 3;
-    if index < 0 && term.get_julian_day().get_solar_day().is_after(spring_solar_day) {
+    if index < 0 && term.get_julian_day().get_day() > spring.get_julian_day().get_day() {
       index += 24;
     }
     Self {
